@@ -155,7 +155,7 @@ def run_case(b, case, lib):
         before = snapshot(d)
         real_args = [a.replace("{ABS}", d) for a in case["args"]]
         try:
-            pr = subprocess.run([b.tsh] + real_args, cwd=d, stdout=subprocess.PIPE, stderr=subprocess.PIPE, timeout=30)
+            pr = subprocess.run([b.tsh] + real_args, cwd=d, stdout=subprocess.PIPE, stderr=subprocess.PIPE, timeout=120)
             status = pr.returncode
         except subprocess.TimeoutExpired:
             status = -9
